@@ -14,3 +14,5 @@ import Sheens.Timers
 import Sheens.Expect
 import Sheens.Tools
 import Sheens.Compile
+import Sheens.Watcher
+import Sheens.Specter
